@@ -27,7 +27,7 @@ m = {
               'baseline_off_cmd': 'cd /repo && /venv/bin/python -m pytest -ra -q -p no:cacheprovider --timeout=900 --continue-on-collection-errors',
               'source_commits': [], 'add_only': True},
     'engines': [{'name': 'sa', 'path': 'sa/', 'serves_properties': sorted(CHECKS),
-                 'kind_free_text': 'repository-specific static analysis: Python ast + clang -ast-dump=json facts, slot instantiation, local value numbering into a normalised term language, interval x mask abstract interpretation, finite-domain folding of closed expressions, layout models, call-graph / who-may-write rules'}],
+                 'kind_free_text': 'repository-specific static analysis: Python ast + clang -ast-dump=json facts, slot instantiation, local value numbering into a normalised term language, interval x mask abstract interpretation, finite-domain folding, call-graph / who-may-write / def-use / event-order rules; plus compile-time evaluation (folding) of repository source by the checker own evaluator against independent reference models'}],
     'checks': checks,
     'notes': NOTES,
     'not_applicable': [{'property_id': k, 'reason': v} for k, v in sorted(NA.items())],
